@@ -130,6 +130,11 @@ theorem C14_timer_safe (acts : List Act) :
   rw [timerCfg_is_fixed]
   exact ⟨(inv_run acts).safe, (inv_run acts).fresh⟩
 
+/-- a goroutine that picks up the stored channel only when it starts can adopt the channel of the timer that
+    replaced it: the replaced timer then delivers -/
+theorem C14_late_capture_unsafe :
+    Safe (run { Cfg.fixed with captureAtArm := false } [.arm, .stop 0, .arm, .start 1, .expire 1]).log = false := by decide
+
 /-- the pinned design loses a stop that comes before the goroutine waits -/
 theorem C14_pinned_design_unsafe :
     Safe (run Cfg.pinned [.arm, .stop 1, .start 1, .expire 1]).log = false := by decide
